@@ -38,7 +38,7 @@ theorem C35_update_masked (ds : DistSem) (d : Nat) (i j : In) (v : Int) (ri rj :
       exact ⟨rfl, rfl⟩
 
 /-- Element `k` of a vmapped / scanned call sees exactly the sub-map at index `k`. -/
-theorem C35_vector_elementwise (axes : List Bool) (as : List Val) (i i' : In) (k : Nat)
+theorem C35_vector_elementwise (axes : List Ax) (as : List Val) (i i' : In) (k : Nat)
     (h : vmapElem axes as i k = .ok i') : i'.c = CMap.sub i.c (.i k) := by
   simp only [vmapElem, bind_ok, pure_ok] at h
   obtain ⟨_, _, _, _, rfl⟩ := h
